@@ -125,7 +125,11 @@ def c02(tier):
       assumptions=["T4: reference codec validated against the repository's fixtures at every run (vpkg.ref.selftest)"])
 def c03(tier):
     us = pipe_units("ref", "ref", tier)
+    if tier != "quick":
+        us = [u for u in us if (u["params"]["names"], u["params"]["prefixes"]) != (8, 8)]   # C01 thorough covers the roomy preset
     r = pipe_units("refrdf", "ref", tier, integ="rdflib")
+    if tier != "quick":
+        r = [u for u in r if u["params"]["phys"] != 3 or u["params"]["spine"] == u["params"]["fixed"][0] % 3]
     for u in r:
         u["params"]["entry"] = {1: "flat_file", 2: "flat_file", 3: "stream_frames"}[u["params"]["phys"]] if u["params"]["delimited"] else "stream_frames"
         u["params"]["setcmp"] = u["params"]["phys"] == 3  # rdflib's GRAPHS path goes through a Dataset (a set)
